@@ -306,14 +306,9 @@ func runC20(e *Engine, r *Report) {
 		// the maps a range instruction iterates: a membership field, or - when
 		// the loop sits in a local closure called once per map - the fields
 		// passed to that closure
-		rangeFields := func(rg *ssa.Range) []string {
-			if f, _, ok := loadedField(rg.X); ok {
-				return []string{f.Name()}
-			}
-			p, ok := rg.X.(*ssa.Parameter)
-			if !ok || p.Parent().Parent() == nil {
-				return nil
-			}
+		// the membership fields passed for a parameter of a local closure or of a
+		// helper function at its call sites
+		argFields := func(p *ssa.Parameter) []string {
 			cl := p.Parent()
 			idx := -1
 			for i, q := range cl.Params {
@@ -322,7 +317,7 @@ func runC20(e *Engine, r *Report) {
 				}
 			}
 			var out []string
-			forEachCall(cl.Parent(), func(c ssa.CallInstruction) {
+			visit := func(c ssa.CallInstruction) {
 				callee := false
 				for _, g := range e.Callees(c) {
 					if g == cl {
@@ -335,22 +330,51 @@ func runC20(e *Engine, r *Report) {
 				if f, _, ok := loadedField(c.Common().Args[idx]); ok {
 					out = append(out, f.Name())
 				}
-			})
+			}
+			if cl.Parent() != nil {
+				forEachCall(cl.Parent(), visit)
+			} else {
+				for _, cs := range e.CallerSites(cl) {
+					visit(cs)
+				}
+			}
 			return out
 		}
-		e.forEachInstrRegion(gp, 1, func(in ssa.Instruction) {
-			if mu, ok := in.(*ssa.MapUpdate); ok {
-				if f, _, ok := loadedField(mu.Map); ok && f.Name() == "Removed" {
-					// which range(s) does the key come from?
-					e.dependsOn(mu.Key, func(v ssa.Value) bool {
-						if rg, ok := v.(*ssa.Range); ok {
-							for _, k := range rangeFields(rg) {
-								removedFrom[k] = true
-							}
-						}
+		rangeFields := func(rg *ssa.Range) []string {
+			if f, _, ok := loadedField(rg.X); ok {
+				return []string{f.Name()}
+			}
+			if p, ok := rg.X.(*ssa.Parameter); ok {
+				return argFields(p)
+			}
+			return nil
+		}
+		isRemovedMap := func(m ssa.Value) bool {
+			if f, _, ok := loadedField(m); ok {
+				return f.Name() == "Removed"
+			}
+			if p, ok := m.(*ssa.Parameter); ok {
+				fs := argFields(p)
+				for _, f := range fs {
+					if f != "Removed" {
 						return false
-					}, 0)
+					}
 				}
+				return len(fs) > 0
+			}
+			return false
+		}
+		e.forEachInstrRegion(gp, 1, func(in ssa.Instruction) {
+			if mu, ok := in.(*ssa.MapUpdate); ok && isRemovedMap(mu.Map) {
+				// which range(s) does the key come from?
+				e.dependsOn(mu.Key, func(v ssa.Value) bool {
+					if rg, ok := v.(*ssa.Range); ok {
+						for _, k := range rangeFields(rg) {
+							removedFrom[k] = true
+						}
+					}
+					return false
+				}, 0)
 			}
 		})
 		r.check(keysOf(removedFrom) == "Addresses,NonVotings,Removed,Witnesses", "TBL-import-record", "unlisted members of every kind (and earlier removals) end up in Removed", e.pos(gp.Pos()),
